@@ -291,13 +291,8 @@ impl<T: Ord> CDF<T> {
                         self.inner[0].prob
                     }
                 }
-                Err(i) => {
-                    if i > 0 {
-                        self.inner[i - 1].prob
-                    } else {
-                        LogProb::ln_zero()
-                    }
-                }
+                // a value that is not a support point carries no mass
+                Err(_) => LogProb::ln_zero(),
             })
         }
     }
